@@ -6,6 +6,9 @@ import (
 	"flag"
 	"fmt"
 	"os"
+	"strings"
+
+	"github.com/taskctl/taskctl/vrt"
 
 	"github.com/taskctl/taskctl/internal/vh/common"
 )
@@ -77,6 +80,48 @@ func runUnit(res *common.Result) {
 	case "dag3-b3":
 		res.Bound = 3
 		dags(1, 3, sigma, 3, false, *pruneFlag, nil)
+	case "agreement-b1": // engine self-check on the real scheduler: pruned and unpruned searches must observe the same things
+		res.Bound = 1
+		for n := 1; n <= 2; n++ {
+			for _, deps := range allDAGs(n) {
+				forEachOutcome(n, sigma, func(outs []int) {
+					cfg := Cfg{G: mkGraph(deps, outs, names), Index: idx}
+					idx++
+					if !common.Mine(cfg.Index) {
+						return
+					}
+					m := evalModel(&cfg.G)
+					var sets [2]map[string]bool
+					var execs [2]int64
+					for k, prune := range []bool{false, true} {
+						sets[k] = map[string]bool{}
+						st := vrt.Explore(vrt.ExploreConfig{Bound: 1, Prune: prune}, body(&cfg, m), func(x *vrt.Execution) bool {
+							o := observe(x)
+							sets[k][o.vector()+"|"+strings.Join(o.Order, ",")] = true
+							return true
+						})
+						execs[k] = st.Execs
+						res.Evaluations += st.Execs
+						res.Traces += st.Execs
+						res.States += st.States
+						res.Transitions += st.Transitions
+					}
+					for o := range sets[0] {
+						if !sets[1][o] {
+							fmt.Fprintf(os.Stderr, "ENGINE SELF-CHECK FAILED: state-key pruning lost observation %q of %s (%d vs %d executions)\n", o, cfg.String(), execs[0], execs[1])
+							os.Exit(2)
+						}
+					}
+					res.Configs++
+					if len(sets[0]) >= 2 {
+						res.Nontrivial++
+					}
+					res.Extra["agreement_unpruned_execs"] += execs[0]
+					res.Extra["agreement_pruned_execs"] += execs[1]
+					res.AddSample(map[string]interface{}{"config": cfg.String(), "unpruned_executions": execs[0], "pruned_executions": execs[1], "distinct_observations": len(sets[0])})
+				})
+			}
+		}
 	case "dag2-unbounded": // every interleaving (no preemption bound), state-key pruning
 		res.Bound = -1
 		dags(1, 2, sigma, -1, false, true, nil)
